@@ -59,16 +59,27 @@ func (s *leaseSys) us(t *time.Time) int64 {
 }
 
 type leaseFacade struct {
-	s        *leaseSys
-	p        int
-	dead     int32
-	casCount int32
-	faultAt  int32  // inject on the k-th CAS (1-based), 0 = never
-	faultOdd bool   // inject on every odd CAS (each failed renewal is followed by a successful retry)
-	faultKnd string // "lost" or "replylost"
+	s         *leaseSys
+	p         int
+	dead      int32
+	casCount  int32
+	faultAt   int32  // inject on the k-th CAS (1-based), 0 = never
+	faultOdd  bool   // inject on every odd CAS (each failed renewal is followed by a successful retry)
+	faultPair bool   // inject on the k-th AND the (k+1)-th CAS (two failed attempts in a row)
+	faultKnd  string // "lost" or "replylost"
+	// a renewal call / a Create can be held back inside the facade (the call has been issued by the library
+	// but has not reached the store yet), to put a renewal of a finished tenure in front of the next acquisition
+	holdCas    int32
+	casArrived chan struct{}
+	casGo      chan struct{}
+	holdCreate int32
+	createGo   chan struct{}
 }
 
 func (f *leaseFacade) Create(ctx context.Context, r kvs.Record) (string, error) {
+	if atomic.CompareAndSwapInt32(&f.holdCreate, 1, 0) {
+		<-f.createGo
+	}
 	if atomic.LoadInt32(&f.dead) == 1 {
 		f.s.log(map[string]any{"e": "create", "p": f.p, "res": "dead", "exp": 0})
 		return "", errInjected
@@ -86,11 +97,15 @@ func (f *leaseFacade) Create(ctx context.Context, r kvs.Record) (string, error) 
 
 func (f *leaseFacade) CasByVersion(ctx context.Context, r kvs.Record) (kvs.Record, error) {
 	n := atomic.AddInt32(&f.casCount, 1)
+	if n == atomic.LoadInt32(&f.holdCas) {
+		close(f.casArrived)
+		<-f.casGo
+	}
 	if atomic.LoadInt32(&f.dead) == 1 {
 		f.s.log(map[string]any{"e": "cas", "p": f.p, "res": "dead", "exp": 0, "n": n})
 		return kvs.Record{}, errInjected
 	}
-	if (n == f.faultAt || f.faultOdd && n%2 == 1) && f.faultKnd == "lost" {
+	if (n == f.faultAt || f.faultPair && n == f.faultAt+1 || f.faultOdd && n%2 == 1) && f.faultKnd == "lost" {
 		f.s.log(map[string]any{"e": "cas", "p": f.p, "res": "lost", "exp": 0, "n": n})
 		return kvs.Record{}, errInjected
 	}
@@ -151,17 +166,21 @@ type leaseParty struct {
 	locker gsync.Locker
 }
 
-func newLeaseSys(ttl time.Duration, n int, mixed ...bool) (*leaseSys, []*leaseParty) {
+func newLeaseSys(ttl time.Duration, n int, mix int) (*leaseSys, []*leaseParty) {
 	s := &leaseSys{start: time.Now(), backing: inmem.New(), key: "/locks/L", stop: make(chan struct{})}
 	var ps []*leaseParty
 	for i := 1; i <= n; i++ {
 		f := &leaseFacade{s: s, p: i}
 		pr := dist.NewKvsLockProvider(f, "/locks/")
-		if len(mixed) > 0 && mixed[0] && i > 1 {
+		switch {
+		case mix == 1 && i > 1:
 			// the other parties run providers configured with a three times longer lease (their timers sit
 			// later in the process-wide timer queue than the holder's renewals)
 			dist.VerifSetLeaseTTL(pr, 3*ttl)
-		} else {
+		case mix == 2 && i > 1:
+			// ... or with a much shorter one: how long THEY would hold a record says nothing about the holder's
+			dist.VerifSetLeaseTTL(pr, ttl/4)
+		default:
 			dist.VerifSetLeaseTTL(pr, ttl)
 		}
 		ps = append(ps, &leaseParty{fac: f, prov: pr, locker: pr.NewLocker("L")})
@@ -209,16 +228,23 @@ type leaseScenario struct {
 	FaultAt int    // k-th CAS
 	Fault   string // lost | replylost | ""
 	Phase   int    // death / unlock offset inside the renewal cycle, in 1/8 of TTL/2
+	Pair    bool   // the fault hits two consecutive renewal calls
+	Mix     int    // lease lengths of the other parties: 0 same, 1 three times longer, 2 four times shorter
 	Distant bool   // an unrelated, much later timer is pending (and the dispatcher asleep towards it) when the lock is acquired
 }
 
 func runLeaseScenario(sc leaseScenario) (*leaseSys, bool) {
-	s, ps := newLeaseSys(sc.TTL, 3, sc.Phase%2 == 1)
+	mix := sc.Mix
+	if mix == 0 && sc.Phase%2 == 1 {
+		mix = 1
+	}
+	s, ps := newLeaseSys(sc.TTL, 3, mix)
 	defer close(s.stop)
 	ttl := sc.TTL.Microseconds()
 	holder, contender, waiter := ps[0], ps[1], ps[2]
 	holder.fac.faultAt, holder.fac.faultKnd = int32(sc.FaultAt), sc.Fault
 	holder.fac.faultOdd = sc.FaultAt < 0
+	holder.fac.faultPair = sc.Pair
 	s.events[0]["kind"] = sc.Kind
 	s.events[0]["fault"] = sc.Fault
 	if sc.Distant {
@@ -272,7 +298,107 @@ func runLeaseScenario(sc leaseScenario) (*leaseSys, bool) {
 		s.log(map[string]any{"e": "rel", "p": 1})
 		holder.locker.Unlock()
 		s.log(map[string]any{"e": "unlocked", "p": 1})
+		if sc.Periods%2 == 0 {
+			// the same Locker object is used again at once (a renewal of the previous tenure may still be in flight):
+			// nobody holds the lock, so it must be acquired, held and released like the first time
+			rctx, rcancel := context.WithTimeout(context.Background(), time.Duration(3*ttl)*time.Microsecond+2*time.Second)
+			err := holder.locker.LockWithCtx(rctx)
+			rcancel()
+			if err != nil {
+				s.log(map[string]any{"e": "reacqfail", "p": 1})
+			} else {
+				s.log(map[string]any{"e": "acq", "p": 1})
+				observe(s.now()+3*ttl/2, true)
+				s.log(map[string]any{"e": "rel", "p": 1})
+				holder.locker.Unlock()
+				s.log(map[string]any{"e": "unlocked", "p": 1})
+			}
+		}
 		observe(s.now()+2*ttl, false)
+		// in the end the lock is free: the contender gets it
+		ok := contender.locker.TryLock(context.Background())
+		s.log(map[string]any{"e": "freetry", "p": 2, "ok": ok})
+		if ok {
+			contender.locker.Unlock()
+		}
+	case "stalecas":
+		// The first renewal call of the tenure is issued by the library but held back on its way to the store;
+		// meanwhile the holder unlocks and the SAME Locker is used again; the old renewal reaches the store before
+		// the new acquisition's Create does.  Nobody holds the lock: the acquisition must succeed, its lease must be
+		// kept, and afterwards the lock must be free again.
+		holder.fac.casArrived, holder.fac.casGo, holder.fac.createGo = make(chan struct{}), make(chan struct{}), make(chan struct{})
+		atomic.StoreInt32(&holder.fac.holdCas, 1)
+		select {
+		case <-holder.fac.casArrived:
+		case <-time.After(time.Duration(2*ttl)*time.Microsecond + 2*time.Second):
+			s.log(map[string]any{"e": "harness-error", "what": "renewal never issued"})
+			return s, false
+		}
+		s.log(map[string]any{"e": "rel", "p": 1})
+		holder.locker.Unlock()
+		s.log(map[string]any{"e": "unlocked", "p": 1})
+		if sc.Pair {
+			// variant: another party takes the lock in between and is the one observed from now on; the held-back
+			// renewal of the first tenure then FAILS transiently while the first Locker is busy acquiring again.
+			// The new holder's own renewals must go on finding its record.
+			if !contender.locker.TryLock(context.Background()) {
+				s.log(map[string]any{"e": "harness-error", "what": "contender could not take the free lock"})
+				return s, false
+			}
+			s.log(map[string]any{"e": "acq", "p": 2})
+			racq := make(chan error, 1)
+			rctx, rcancel := context.WithTimeout(context.Background(), time.Duration(6*ttl)*time.Microsecond+3*time.Second)
+			go func() { racq <- holder.locker.LockWithCtx(rctx) }()
+			time.Sleep(5 * time.Millisecond)
+			close(holder.fac.casGo) // (fails: FaultAt = 1)
+			i := 0
+			for until := s.now() + 2*ttl; s.now() < until; i++ {
+				s.sleepUntil(min64(until, s.now()+ttl/5))
+				s.probe()
+			}
+			s.log(map[string]any{"e": "rel", "p": 2})
+			contender.locker.Unlock()
+			s.log(map[string]any{"e": "unlocked", "p": 2})
+			if err := <-racq; err != nil {
+				s.log(map[string]any{"e": "reacqfail", "p": 1})
+			} else {
+				holder.locker.Unlock()
+			}
+			rcancel()
+			observe(s.now()+3*ttl/2, false)
+			ok := contender.locker.TryLock(context.Background())
+			s.log(map[string]any{"e": "freetry", "p": 2, "ok": ok})
+			if ok {
+				contender.locker.Unlock()
+			}
+			break
+		}
+		atomic.StoreInt32(&holder.fac.holdCreate, 1)
+		racq := make(chan error, 1)
+		go func() {
+			rctx, rcancel := context.WithTimeout(context.Background(), time.Duration(3*ttl)*time.Microsecond+2*time.Second)
+			defer rcancel()
+			racq <- holder.locker.LockWithCtx(rctx)
+		}()
+		time.Sleep(5 * time.Millisecond) // the acquisition is past its local phase, its Create is held back
+		close(holder.fac.casGo)          // the old renewal reaches the store (record gone: ErrNotExist)
+		time.Sleep(10 * time.Millisecond)
+		close(holder.fac.createGo)
+		if err := <-racq; err != nil {
+			s.log(map[string]any{"e": "reacqfail", "p": 1})
+		} else {
+			s.log(map[string]any{"e": "acq", "p": 1})
+			observe(s.now()+3*ttl/2, true)
+			s.log(map[string]any{"e": "rel", "p": 1})
+			holder.locker.Unlock()
+			s.log(map[string]any{"e": "unlocked", "p": 1})
+		}
+		observe(s.now()+3*ttl/2, false)
+		ok := contender.locker.TryLock(context.Background())
+		s.log(map[string]any{"e": "freetry", "p": 2, "ok": ok})
+		if ok {
+			contender.locker.Unlock()
+		}
 	case "handoff":
 		// a waiter blocks in LockWithCtx for most of a lease period, the holder unlocks, the waiter acquires and
 		// holds: the new holder's lease must be in order although it waited long for the lock
@@ -285,7 +411,9 @@ func runLeaseScenario(sc leaseScenario) (*leaseSys, bool) {
 				return
 			}
 			s.log(map[string]any{"e": "wacq", "p": 3})
-			s.log(map[string]any{"e": "acq", "p": 3})
+			if sc.Mix != 2 { // (a party with a very short lease of its own is not observed as a holder: too timing-sensitive)
+				s.log(map[string]any{"e": "acq", "p": 3})
+			}
 		}()
 		observe(t0+int64(4+sc.Phase)*ttl/8, false) // the holder keeps the lock for 0.5 .. 1.4 lease periods
 		s.log(map[string]any{"e": "rel", "p": 1})
@@ -295,7 +423,11 @@ func runLeaseScenario(sc leaseScenario) (*leaseSys, bool) {
 		case <-done:
 		case <-time.After(3 * time.Second):
 		}
-		observe(s.now()+2*ttl, true) // contender polls while the new holder holds
+		if sc.Mix == 2 {
+			observe(s.now()+ttl/4, false)
+		} else {
+			observe(s.now()+2*ttl, true) // contender polls while the new holder holds
+		}
 		cancel()
 		<-done
 		s.mu.Lock()
@@ -373,11 +505,21 @@ func driveLease(opt *Options) error {
 	switch opt.Extra["mode"] {
 	case "replylost": // the recorded finding: a renewal whose reply is lost
 		scs = append(scs, leaseScenario{Kind: "hold", TTL: 200 * time.Millisecond, Periods: 4, FaultAt: 2, Fault: "replylost"})
+	case "stale": // C04 under real leases: a renewal of a finished tenure must leave nothing behind
+		for _, ttl := range ttls {
+			scs = append(scs, leaseScenario{Kind: "stalecas", TTL: ttl})
+			scs = append(scs, leaseScenario{Kind: "stalecas", TTL: ttl, Pair: true, FaultAt: 1, Fault: "lost"})
+			for ph := 0; ph < 8; ph += 2 {
+				scs = append(scs, leaseScenario{Kind: "unlockrace", TTL: ttl, Periods: 2, Phase: ph})
+			}
+		}
 	case "handoff": // C01 under real leases: a caller that waited long acquires and holds
 		for _, ttl := range ttls {
 			for ph := 0; ph < 8; ph += 2 {
 				scs = append(scs, leaseScenario{Kind: "handoff", TTL: ttl, Phase: ph})
 			}
+			scs = append(scs, leaseScenario{Kind: "handoff", TTL: ttl, Phase: 6, Mix: 2})
+			scs = append(scs, leaseScenario{Kind: "handoff", TTL: ttl, Phase: 2, Mix: 2})
 		}
 	default:
 		for _, ttl := range ttls {
@@ -385,6 +527,13 @@ func driveLease(opt *Options) error {
 			for k := 1; k <= 5; k++ {
 				scs = append(scs, leaseScenario{Kind: "hold", TTL: ttl, Periods: 5, FaultAt: k, Fault: "lost"})
 			}
+			for _, k := range []int{1, 3} { // two failed renewal attempts in a row
+				scs = append(scs, leaseScenario{Kind: "hold", TTL: ttl, Periods: 5, FaultAt: k, Fault: "lost", Pair: true})
+			}
+			scs = append(scs, leaseScenario{Kind: "stalecas", TTL: ttl})
+			scs = append(scs, leaseScenario{Kind: "stalecas", TTL: ttl, Pair: true, FaultAt: 1, Fault: "lost"})
+			scs = append(scs, leaseScenario{Kind: "hold", TTL: ttl, Periods: 4, Mix: 2})
+			scs = append(scs, leaseScenario{Kind: "handoff", TTL: ttl, Phase: 6, Mix: 2})
 			// every other renewal call fails transiently, over a long hold
 			scs = append(scs, leaseScenario{Kind: "hold", TTL: ttl, Periods: 10, FaultAt: -1, Fault: "lost"})
 			for ph := 0; ph < 8; ph++ {
